@@ -26,6 +26,11 @@ pub struct KyteaSpec {
     pub with_subword_dict: bool,
     pub with_self_dict: bool,
     pub trailing: Vec<u8>,
+    /// an n-gram section without n-grams is written as a present trie with the root state only
+    /// (instead of an absent one)
+    pub empty_tries_present: bool,
+    #[doc(hidden)]
+    pub in_ngram_section: std::cell::Cell<bool>,
 }
 
 struct Out(Vec<u8>);
@@ -98,7 +103,16 @@ impl KyteaSpec {
     fn dictionary(&self, o: &mut Out, n_dicts: u8, words: &[Vec<char>], emit_entry: &mut dyn FnMut(&mut Out, usize)) {
         o.u8(n_dicts);
         if words.is_empty() {
-            o.u32(0);
+            if self.empty_tries_present && n_dicts == 0 && self.in_ngram_section.get() {
+                o.u32(1); // one state: the root
+                o.u32(0); // failure link
+                o.u32(0); // no gotos
+                o.u32(0); // no outputs
+                o.u8(0);
+                o.u32(0); // no entries
+            } else {
+                o.u32(0);
+            }
             return;
         }
         let t = Trie::build(words);
@@ -175,6 +189,7 @@ impl KyteaSpec {
         o.f64(0.01);
         o.u8(1); // feature lookup active
         let cw: Vec<Vec<char>> = self.char_ngrams.iter().map(|x| x.0.clone()).collect();
+        self.in_ngram_section.set(true);
         self.dictionary(&mut o, 0, &cw, &mut |o, i| {
             let w = &self.char_ngrams[i].1;
             o.u32((w.len() + self.extra_weights) as u32);
@@ -196,6 +211,7 @@ impl KyteaSpec {
                 o.i16(2000 + k as i16);
             }
         });
+        self.in_ngram_section.set(false);
         if self.with_self_dict && !cw.is_empty() {
             self.dictionary(&mut o, 0, &cw[..1], &mut |o, _| {
                 o.u32(1);
@@ -467,6 +483,8 @@ pub fn gen_spec(rng: &mut Rng) -> (KyteaSpec, Vec<Vec<char>>) {
         with_subword_dict: rng.chance(1, 2),
         with_self_dict: rng.chance(1, 2),
         trailing: (0..rng.below(9)).map(|_| rng.below(256) as u8).collect(),
+        empty_tries_present: rng.chance(1, 2),
+        in_ngram_section: std::cell::Cell::new(false),
     };
     (spec, texts)
 }
